@@ -46,6 +46,18 @@ pub fn probe_raise(args: &[P]) -> FFIReturnValue {
     FFIReturnValue::FFIError(format!("probe raised <{}>", describe(args)))
 }
 
+/// Raises a message of several lines; every line must reach the report.
+#[no_mangle]
+pub fn probe_raise_multi(args: &[P]) -> FFIReturnValue {
+    FFIReturnValue::FFIError(format!("probe raised first line\nsecond line <{}>\nthird line", describe(args)))
+}
+
+/// Raises a message that starts with an empty line.
+#[no_mangle]
+pub fn probe_raise_blank(args: &[P]) -> FFIReturnValue {
+    FFIReturnValue::FFIError(format!("\nprobe raised after a blank line <{}>", describe(args)))
+}
+
 /// Raises only when the first argument is the int 2 (used inside list callbacks).
 #[no_mangle]
 pub fn probe_raise_on_two(args: &[P]) -> FFIReturnValue {
